@@ -114,6 +114,10 @@ Section Token.
         end
     end.
 
+  (* the measure the second pass decreases: it is given one unit of fuel more than this *)
+  Definition mu_el (e : tel) : nat := match e with TStr s => S (2 * List.length s) | _ => 1%nat end.
+  Definition mu (l : list tel) : nat := fold_right (fun e n => (mu_el e + n)%nat) 0%nat l.
+
   Definition atoms_of (els : list tel) : list str :=
     flat_map (fun e => match e with TAtom a => [a] | _ => [] end) els.
 
@@ -123,7 +127,7 @@ Section Token.
     let raw := strip text in
     if negb (count_char (ch "(") text =? count_char (ch ")") text) then Err ERuntime "unbalanced branches" else
     do els <- scan (S (S (2 * List.length raw))) raw [] [];
-    do s <- bind (S (2 * List.length raw + List.length els)) off els {| p_done := []; p_natoms := 0; p_stack := [-1]; p_bds := [] |};
+    do s <- bind (S (mu els)) off els {| p_done := []; p_natoms := 0; p_stack := [-1]; p_bds := [] |};
     OK {| k_elements := rev (p_done s); k_atoms := atoms_of (rev (p_done s)); k_bds := rev (p_bds s) |}.
 End Token.
 
